@@ -480,7 +480,7 @@ def obs_l(r):
 
 
 HEADER = ('From Coq Require Import ZArith List Bool.\nImport ListNotations.\n'
-          'From FV.C08 Require Import Table Model Corr.\nFrom FV.C09 Require Import Model Corr.\n'
+          'From FV.C09 Require Import Table AttrModel Model Corr.\n'
           'From FV.C09.gen Require Import MeshCfg.\nLocal Open Scope Z_scope.\n'
           'Set Printing Width 100000.\nSet Printing Depth 100000.\n')
 
@@ -651,7 +651,7 @@ def main(ctx):
                 'distinct (mesh, operation, selection)')
     ctx.trusted += [
         'translator /verif/translate/c09_cfg.py (three sites, fail-closed)',
-        'hand model coq/C09/Model.v on coq/C08/Table.v (numpy unique/isin/argsort, pandas .loc/.iloc '
+        'hand model coq/C09/Model.v on coq/C09/Table.v + AttrModel.v (vendored copies of the C08 table/block library; numpy unique/isin/argsort, pandas .loc/.iloc '
         'semantics represented there and pinned by the correspondence)',
         'harness glue harness/c09.py, c09_impl.py; for to_surface/to_facets the facet lists are taken '
         'from the implementation (extract_surface / extract_facets: property C10) and regrouped by '
@@ -678,7 +678,7 @@ def main(ctx):
     proof_ok = False
     if tie_ok:
         proof_ok, log = ctx.build_props('C09/Props.v', extra_targets=['C09/Corr.vo'],
-                                        scan_dirs=[lib.COQ / 'C09', lib.COQ / 'C08'])
+                                        scan_dirs=[lib.COQ / 'C09'])
         if not proof_ok:
             ctx.notes['build_log_tail'] = log[-1500:]
         elif ctx.tier == 'thorough' and hasattr(ctx, 'coqchk'):
